@@ -55,9 +55,13 @@ CASE_TIMEOUT = 1800
 EVENTS = ["py", "tab", "dflt", "c", "tpl", "hdr", "dtype", "loadL", "loadF", "loadO", "loadS"]
 Q = [0.1, 0.5]
 A = 1.5
-K_PY = (2.0, 7.0)
-K_C = (5.0, 7.0)       # same text length: an edit need not change the file size
-K_HDR = (1.0, 3.0)
+# The two texts of every toggled constant have the same length AND the same byte sum AND the same position-weighted
+# byte sum ("131" -> "212": +1, -2, +1 on three consecutive bytes): an edit need not change the file size, and it
+# must not be missed by a cache key weaker than the text itself (additive / Fletcher / Adler style checksums
+# collide on exactly such edits; seeded change C17-f2 swapped crc32 for adler32).
+K_PY = (2.131, 2.212)
+K_C = (5.131, 5.212)
+K_HDR = (1.131, 1.212)
 B_DEFAULT = (1.0, 2.5)  # default of parameter b (never passed explicitly): a Python-only edit, same generated C
 DTYPES = [("double", "float64", 1e-12), ("single", "float32", 2e-6), ("quad", "float128", 1e-12)]
 CLOCKS = {"past": 1500000000, "future": 2200000000}   # edits stamped before / after the wall clock
